@@ -301,7 +301,7 @@ CM = 'moPepGen/cli/common.py'
 
 class ParamFlow(Contract):
     """shared machinery: symbolic args, stubs for the index directory and the loaders"""
-    props = ('C10', 'C12')
+    props = ('C10', 'C12', 'C06')
     declared_raises = None
     assumptions = ('assumed: IndexDir / loaders / print_start_message are stubs that record the calls (their own contracts are in contracts/c12.py)',
                    'assumed: args.* are the argparse values: strings for rule/exception, ints for miscleavage/min_length/max_length, a float for min_mw')
@@ -327,7 +327,7 @@ class ParamFlow(Contract):
                             min_mw=st.minmw, min_length=st.minlen, max_length=st.maxlen, force=st.force,
                             genome_fasta=SymObj('PathStub'), annotation_gtf=SymObj('PathStub'),
                             proteome_fasta=SymObj('PathStub'), output_dir=SymObj('PathStub'),
-                            index_dir=SymObj('PathStub'), reference_source=None, gtf_symlink=False,
+                            index_dir=SymObj('PathStub'), reference_source=OpaqueStr(['source']), gtf_symlink=e.bool('gtf_symlink'),
                             invalid_protein_as_noncoding=e.bool('ipan'), quiet=True)
         self._cur = st
         return st
@@ -380,7 +380,22 @@ class ParamFlow(Contract):
         for m in ('wipe_canonical_peptides', 'init_metadata', 'save_genome', 'save_proteome', 'save_coding_tx',
                   'save_metadata', 'validate_metadata', 'load_genome'):
             reg.method_('IndexDirStub', m, lambda I, o, a, k, m=m: c._cur.calls.append((m, a, k)))
-        reg.method_('IndexDirStub', 'save_annotation', lambda I, o, a, k: SymObj('AnnoStub10', source='GENCODE', transcripts={}))
+        def save_annotation(I, o, a, k):
+            st = c._cur
+            # bind the call on the REAL signature of IndexDir.save_annotation
+            mod, cls, fnode = I.repo.function_node('moPepGen/index.py', 'IndexDir.save_annotation')
+            from pyvc.interp import Env
+            env = Env({})
+            I.bind_args(fnode.args, [o] + list(a), k, env, 'save_annotation')
+            b = env.vars
+            ao = st.argsobj.fields
+            I.e.prove('C12/generate_index/save_annotation/file-is-the-annotation-gtf', b['file'] is ao['annotation_gtf'])
+            I.e.prove('C12/generate_index/save_annotation/source', b['source'] is ao['reference_source'])
+            I.e.prove('C12/generate_index/save_annotation/proteome-is-the-loaded-proteome', isinstance(b['proteome'], SymObj) and b['proteome'].cls == 'ProteomeStub')
+            I.e.prove('C12/generate_index/save_annotation/invalid_protein_as_noncoding', b['invalid_protein_as_noncoding'] is ao['invalid_protein_as_noncoding'])
+            I.e.prove('C12/generate_index/save_annotation/symlink', b['symlink'] is ao['gtf_symlink'])
+            return SymObj('AnnoStub10', source='GENCODE', transcripts={})
+        reg.method_('IndexDirStub', 'save_annotation', save_annotation)
         reg.method_('IndexDirStub', 'load_annotation', lambda I, o, a, k: SymObj('AnnoStub10', source='GENCODE', transcripts={}))
         reg.method_('AnnoStub10', 'check_protein_coding', lambda I, o, a, k: None)
         reg.method_('AnnoStub10', 'generate_index', lambda I, o, a, k: None)
@@ -549,8 +564,10 @@ class NativeDigest(NativeCheck):
                 if rng.random() < 0.15 and L:
                     i = rng.randrange(L)
                     s = s[:i] + rng.choice('*X') + s[i + 1:]
+                lo = rng.choice([1, 1, 2, 4])
                 yield dict(rule=rule, seq=s, misc=rng.randint(0, 3), nf=rng.random() < 0.5,
-                           exc=('trypsin_exception' if rule == 'trypsin' and rng.random() < 0.7 else None))
+                           exc=('trypsin_exception' if rule == 'trypsin' and rng.random() < 0.7 else None),
+                           min_length=lo, max_length=rng.choice([lo + 1, lo + 3, 6, 100]))
 
     def from_model(self, model):
         cells = {}
@@ -587,11 +604,13 @@ class NativeDigest(NativeCheck):
             if 'X' in s or '*' in s:
                 continue
             try:
-                peps = rec.enzymatic_cleave(rule, inp['exc'], miscleavage=inp['misc'], min_mw=0., min_length=1, max_length=100, cds_start_nf=inp['nf'])
+                lo, hi = inp.get('min_length', 1), inp.get('max_length', 100)
+                peps = rec.enzymatic_cleave(rule, inp['exc'], miscleavage=inp['misc'], min_mw=0., min_length=lo, max_length=hi, cds_start_nf=inp['nf'])
             except ValueError:
                 continue
             got2 = {str(p.seq) for p in peps}
-            exp2 = {p for p in pyspec.digest(s, rule, inp['exc'], inp['misc'], cds_start_nf=inp['nf'], filt=False) if len(p) >= 1 and pyspec.mol_weight(p) > 0}
+            exp2 = {p for p in pyspec.digest(s, rule, inp['exc'], inp['misc'], cds_start_nf=inp['nf'], filt=False)
+                    if lo <= len(p) <= hi and pyspec.mol_weight(p) > 0}
             if got2 != exp2:
                 return dict(call=f'enzymatic_cleave({rule!r}, misc={inp["misc"]}, nf={inp["nf"]}) on {s!r}',
                             observed=sorted(got2 ^ exp2)[:6], expected='equal to digest spec')
@@ -622,7 +641,7 @@ class NativePool(NativeCheck):
                 s = ''.join(rng.choice('KRPMWCDILAGKR') for _ in range(L))
                 if rng.random() < 0.3:
                     s = 'X' * rng.randint(1, 2) + s
-                if rng.random() < 0.4:
+                if rng.random() < 0.6:
                     s = 'M' + s
                 if rng.random() < 0.3:
                     i = rng.randrange(len(s))
@@ -630,7 +649,8 @@ class NativePool(NativeCheck):
                 prots[f'T{t}'] = s
             rule, exc = rng.choice([('trypsin', 'trypsin_exception'), ('trypsin', None), ('lysc', None), ('asp-n', None)])
             yield dict(kind='random', proteins=prots, rule=rule, exception=exc, misc=rng.randint(0, 2),
-                       nf=[t for t in prots if rng.random() < 0.3], min_length=rng.choice([1, 5, 7]), max_length=rng.choice([15, 25]))
+                       nf=[t for t in prots if rng.random() < 0.4], not_in_gtf=[t for t in prots if rng.random() < 0.3],
+                       min_length=rng.choice([1, 5, 7]), max_length=rng.choice([15, 25]))
 
     def check(self, inp):
         from . import cv_run, realobj
@@ -640,11 +660,14 @@ class NativePool(NativeCheck):
             proteome = aa.AminoAcidSeqDict()
             for t, s in inp['proteins'].items():
                 proteome[t] = aa.AminoAcidSeqRecord(Seq(s), _id=t, transcript_id=t, protein_id='P' + t, gene_id='G' + t)
+            absent = set(inp.get('not_in_gtf', []))
             anno = realobj.anno_from(
-                [dict(id='G' + t, start=0, end=400, strand=1, transcripts=[t]) for t in inp['proteins']],
-                [dict(id=t, gene='G' + t, strand=1, exons=[(0, 400)], tags=(['cds_start_NF'] if t in inp['nf'] else [])) for t in inp['proteins']])
+                [dict(id='G' + t, start=0, end=400, strand=1, transcripts=[t]) for t in inp['proteins'] if t not in absent],
+                [dict(id=t, gene='G' + t, strand=1, exons=[(0, 400)], tags=(['cds_start_NF'] if t in inp['nf'] else []))
+                 for t in inp['proteins'] if t not in absent])
             got = proteome.create_unique_peptide_pool(anno, inp['rule'], inp['exception'], inp['misc'], 500., inp['min_length'], inp['max_length'])
-            exp = pyspec.canonical_pool(inp['proteins'], inp['rule'], inp['exception'], inp['misc'], 500., inp['min_length'], inp['max_length'], cds_start_nf=set(inp['nf']))
+            exp = pyspec.canonical_pool(inp['proteins'], inp['rule'], inp['exception'], inp['misc'], 500., inp['min_length'], inp['max_length'],
+                                        cds_start_nf=set(inp['nf']) - absent)
             if set(got) != exp:
                 return dict(observed=dict(missing=sorted(exp - set(got))[:5], extra=sorted(set(got) - exp)[:5]), expected='pool = digest spec')
             return None
